@@ -1,7 +1,7 @@
 """C05 - completion. Proof (partial, safety): coq/Props/C05.v. Tie: trace validation incl. the quiescence test (deadlock detector on the real scheduler, "nothing enabled" on the model)."""
 from .. import common, sched_check, monitors, gen, tracelib
 
-KINDS = ['uncertified', 'uncertified_flat', 'impl_err:deadlock', 'impl_err:internal:assert', 'impl_err:internal:backwards', 'impl_err:internal:past', 'model_err:backwards', 'model_err:past', 'notdone', 'quiesce_enabled', 'tables', 'tables_anc']
+KINDS = ['uncertified', 'uncertified_flat', 'state', 'impl_err:deadlock', 'impl_err:internal:assert', 'impl_err:internal:backwards', 'impl_err:internal:past', 'model_err:backwards', 'model_err:past', 'notdone', 'quiesce_enabled', 'tables', 'tables_anc']
 
 
 def P_C05(ctx, log, outcome_kind='ok', val=None, **kw):
